@@ -205,17 +205,96 @@ class BodyEmitter:
         return cur
 
 
-def _find_pattern(sf, lo, hi, pat_text, what):
-    pat = [t.text for t in tokenize(pat_text)]
+def _pattern_tokens(pat_text):
+    """tokens of a pattern; `$name` is a metavariable standing for one identifier (rename-robust anchors);
+    `$$` stands for any (possibly empty) bracket-balanced token sequence, matched non-greedily"""
+    raw = tokenize(pat_text)
+    out, i = [], 0
+    while i < len(raw):
+        if raw[i].text == "$" and i + 1 < len(raw) and raw[i + 1].text == "$":
+            out.append(("*", None))
+            i += 2
+        elif raw[i].text == "$" and i + 1 < len(raw) and raw[i + 1].kind == "id":
+            out.append(("$", raw[i + 1].text))
+            i += 2
+        else:
+            out.append(("=", raw[i].text))
+            i += 1
+    return out
+
+
+def _match_at(toks, i, hi, pat, k, b):
+    """match pat[k:] at token index i; returns end index (exclusive) or None; b is updated in place"""
+    while k < len(pat):
+        kind, val = pat[k]
+        if kind == "*":
+            # non-greedy: try to match the rest after consuming 0.. tokens, staying bracket balanced
+            depth, j = 0, i
+            while True:
+                if depth == 0:
+                    b2 = dict(b)
+                    e = _match_at(toks, j, hi, pat, k + 1, b2)
+                    if e is not None:
+                        b.clear()
+                        b.update(b2)
+                        return e
+                if j >= hi:
+                    return None
+                x = toks[j].text
+                if toks[j].kind == "punct":
+                    if x in rustlex.OPEN:
+                        depth += 1
+                    elif x in rustlex.CLOSE:
+                        depth -= 1
+                        if depth < 0:
+                            return None
+                j += 1
+        if i >= hi:
+            return None
+        t = toks[i]
+        if kind == "=":
+            if t.text != val:
+                return None
+        else:
+            if t.kind != "id":
+                return None
+            if val in b:
+                if b[val] != t.text:
+                    return None
+            else:
+                b[val] = t.text
+        i += 1
+        k += 1
+    return i
+
+
+def _find_pattern(sf, lo, hi, pat_text, what, binds=None):
+    """-> (hit start indices, pattern length of the FIRST hit, bindings of the first hit).  Metavariables already
+    bound in `binds` must match the bound identifier.  Per-hit (end, bindings) in _find_pattern.last_*"""
+    pat = _pattern_tokens(pat_text)
     if not pat:
         raise GenError("%s: empty pattern" % what)
-    texts = [t.text for t in sf.toks[lo:hi]]
-    hits = []
-    n = len(pat)
-    for i in range(len(texts) - n + 1):
-        if texts[i] == pat[0] and texts[i:i + n] == pat:
-            hits.append(lo + i)
-    return hits, n
+    toks = sf.toks
+    hits, first_b, all_b, ends = [], None, [], []
+    for i in range(lo, hi):
+        if pat[0][0] == "=" and toks[i].text != pat[0][1]:
+            continue
+        b = dict(binds or {})
+        e = _match_at(toks, i, hi, pat, 0, b)
+        if e is not None and e > i:
+            hits.append(i)
+            all_b.append(b)
+            ends.append(e)
+            if first_b is None:
+                first_b = b
+    _find_pattern.last_bindings = dict(zip(hits, all_b))
+    _find_pattern.last_ends = dict(zip(hits, ends))
+    n = (ends[0] - hits[0]) if hits else len(pat)
+    return hits, n, (first_b or {})
+
+
+def _subst(text, binds):
+    return re.sub(r"\$([A-Za-z_][A-Za-z0-9_]*)", lambda m: binds.get(m.group(1), m.group(0)), text)
 
 
 def expand(template_path, repo, vacuity=False):
@@ -500,10 +579,20 @@ def _emit_fn(unit, repo, rel, scope, name, opts, flags, contract, directives, va
     replace, insert = {}, {}
     soft_lost = []
 
+    binds = {}
+    per_hit = {}
+    per_end = {}
+
     def locate(dk, dopts, pat, tline):
         do = dict(o.split("=", 1) for o in dopts if "=" in o)
         want = do.get("count", "1")
-        hits, n = _find_pattern(sf, ob, cb + 1, pat, qual)
+        hits, n, b = _find_pattern(sf, ob, cb + 1, pat, qual, binds)
+        per_hit.clear()
+        per_hit.update(_find_pattern.last_bindings)
+        per_end.clear()
+        per_end.update(_find_pattern.last_ends)
+        if len(hits) == 1:
+            binds.update(b)
         if "optional" in dopts and not hits:
             return None, n
         if (want == "all" and not hits) or (want != "all" and len(hits) != int(want)):
@@ -520,17 +609,21 @@ def _emit_fn(unit, repo, rel, scope, name, opts, flags, contract, directives, va
         if dk in ("OUTLINE", "HAVOC", "CLOSURE", "REPLACE", "ITERNAME"):
             hits, n = locate(dk, dopts, pat, tline)
             for h in hits or []:
-                replace[h] = (h + n, rep, dk.lower(), tline)
+                rep_h = _subst(rep, per_hit.get(h, binds))
+                replace[h] = (per_end.get(h, h + n), rep_h, dk.lower(), tline)
                 if not vacuity:
                     unit.edits.append({"fn": qual, "kind": dk.lower(), "file": rel,
                                        "line": sf.text.count("\n", 0, toks[h].start) + 1,
-                                       "original": sf.text[toks[h].start:toks[h + n - 1].end], "replacement": rep})
+                                       "original": sf.text[toks[h].start:toks[per_end.get(h, h + n) - 1].end],
+                                       "replacement": _subst(rep, per_hit.get(h, binds))})
         elif dk in ("HINT", "LOOPINV", "CLAIM"):
             where = dopts[0] if dopts and dopts[0] in ("after", "before") else "after"
             hits, n = locate(dk, dopts, pat, tline)
             for h in hits or []:
-                at = h + n if where == "after" else h
+                at = per_end.get(h, h + n) if where == "after" else h
                 scaffold.append((at, rep, tline, dk))
+            if not hits:
+                scaffold.append((None, rep, tline, dk))
         else:
             raise GenError("%s:%d: unknown FN directive %s" % (template_path, tline, dk))
     if soft_lost:
@@ -539,6 +632,9 @@ def _emit_fn(unit, repo, rel, scope, name, opts, flags, contract, directives, va
         unit.hints_lost[qual] = soft_lost
         scaffold = []
     for (at, rep, tline, dk) in scaffold:
+        if at is None:
+            continue
+        rep = _subst(rep, binds)   # late substitution: a hint may use a name bound by a later anchor
         insert.setdefault(at, []).append((rep, tline, dk))
         if dk == "CLAIM" and not vacuity:
             m = _LABEL.search(rep)
